@@ -120,7 +120,10 @@ fn union_collection_on_path(k: &KD, p: &[Seg]) -> bool {
                 return true;
             }
             if *i < 0 {
-                return false;
+                // the element a negative index selects depends on the runtime length: any
+                // known element (or the unknown part) may be the one
+                return a.known.values().any(|ch| union_collection_on_path(ch, rest))
+                    || matches!(&a.unknown, UK::Exact(u) if union_collection_on_path(&optional(u), rest));
             }
             match a.known.get(&(*i as usize)) {
                 Some(ch) => union_collection_on_path(ch, rest),
@@ -237,6 +240,11 @@ fn has_optional_known_index(k: &KD) -> bool {
 fn check_get(c: &GetCase, fl: Flags) -> V {
     if fl.no_neg_with_optional_index && has_neg(&c.p) && has_optional_known_index(&c.k) {
         return V::excluded("neg-index-with-optional-known-index");
+    }
+    // a negative index into an array of unknown length merges the known element kinds into the
+    // unknown kind: with a json unknown this is the D42 merge
+    if fl.no_json_unknown_in_union && has_neg(&c.p) && has_json_unknown(&c.k) {
+        return V::excluded("union-with-json-unknown");
     }
     let (k, v) = (c.k.to_kind(), c.v.to_value());
     if let Some(f) = selfcheck(&v, &k, "value") {
@@ -408,7 +416,30 @@ fn check_two(c: &TwoCase, fl: Flags) -> V {
 }
 
 fn kvp() -> impl Strategy<Value = (KD, TV, SegPath)> {
-    (kind_member_mix(3), path(0, 4)).prop_map(|((k, v), p)| (k, v, p))
+    // half of the paths are derived from a location that exists in the value (optionally with the
+    // last index written from the back, optionally extended), so that operations hit structure
+    (kind_member_mix(3), path(0, 4), any::<u16>(), 0u8..8, path(0, 2)).prop_map(|((k, v), rnd, sel, mode, extra)| {
+        let mut locs = Vec::new();
+        crate::model::vpath::locations(&v, &mut Vec::new(), &mut locs);
+        if mode < 4 && !locs.is_empty() {
+            let (mut p, _) = crate::gens::value::pick(&locs, sel);
+            if mode == 1 || mode == 3 {
+                if let Some(Seg::I(i)) = p.last().cloned() {
+                    let parent = p[..p.len() - 1].to_vec();
+                    if let Some(TV::Array(a)) = crate::model::vpath::get(&v, &parent) {
+                        let n = p.len() - 1;
+                        p[n] = Seg::I(i - a.len() as i64);
+                    }
+                }
+            }
+            if mode >= 2 {
+                p.extend(extra);
+            }
+            (k, v, p)
+        } else {
+            (k, v, rnd)
+        }
+    })
 }
 
 /// second kind: unrelated, or a perturbation of the first (so that subset relations occur)
